@@ -133,14 +133,13 @@ Section Exit.
     destruct (resq x) as [|h r]; [apply R, T|]. destruct (rmsg_eqb h m); [inv_some T; repeat split | apply R, T].
   Qed.
 
-  Lemma poll_attr : forall taken f a f' a' b, poll f a taken = Some (f', a', b) -> forall k, same_attr (f' k) (f k).
+  Lemma poll_attr : forall taken f a f' a', poll f a taken = Some (f', a') -> forall k, same_attr (f' k) (f k).
   Proof.
-    induction taken as [|[w m] t IH]; intros f a f' a' b P k; cbn in P.
+    induction taken as [|[w m] t IH]; intros f a f' a' P k; cbn in P.
     - inversion P; subst. apply same_attr_refl.
     - destruct (spawned (phase (f w))); [|discriminate]. destruct (take_msg (f w) m) as [x|] eqn:T; [|discriminate].
-      pose proof (upd_attr f w x (take_msg_attr _ _ _ T) k) as U. destruct m as [s|].
-      + pose proof (IH _ _ _ _ _ P k) as (E1 & E2 & E3). destruct U as (U1 & U2 & U3). repeat split; congruence.
-      + destruct t; [|discriminate]. inversion P; subst. exact U.
+      pose proof (upd_attr f w x (take_msg_attr _ _ _ T) k) as U.
+      pose proof (IH _ _ _ _ P k) as (E1 & E2 & E3). destruct U as (U1 & U2 & U3). repeat split; congruence.
   Qed.
 
   Lemma wjoined_upd : forall st st' w x, ws st' = upd (ws st) w x -> joined x = true -> terminated x = terminated (ws st w) \/ terminated x = true ->
@@ -252,6 +251,20 @@ Section Exit.
         * split; [exact F1|split; [exact F2|split; [exact F3|split; [exact F4|split; [intros X; first [congruence | apply F5; reflexivity]|]]]]]. intros _. split; [exact F6|]. intros _ X. discriminate X.
       + destruct ok; [|discriminate S]. inv_some S. unfold FInv; cbn. split; [exact F1|split; [exact F2|split; [exact F3|split; [exact F4|split; [intros X; first [congruence | apply F5; reflexivity]|]]]]].
         intros _. split; [exact F6|]. intros X. congruence.
+    - (* OSendFail *)
+      destruct (pc st) eqn:Epc; try discriminate S. destruct (nth_error p i) as [s|]; [|discriminate S].
+      destruct (negb (is_fin s (o st)) && negb (cur_running s (o st)) && can_run s (o st) && mp c) eqn:G; [|discriminate S].
+      apply andb_true_iff in G. destruct G as [_ Em].
+      destruct (spawned (phase (ws st (wof c (sid s))))) eqn:Esp; inv_some S; [apply (FInv_same st); auto; cbn; auto|].
+      unfold FInv; cbn. repeat split; auto; try (intros X; congruence).
+      + unfold upd. destruct (Nat.eqb w (wof c (sid s))) eqn:E; [apply Nat.eqb_eq in E; subst; intros _; apply in_or_app; right; left; reflexivity|].
+        intros X. apply in_or_app. left. apply F1, X.
+      + unfold upd. destruct (Nat.eqb w (wof c (sid s))) eqn:E; [reflexivity|]. intros X. apply in_app_or in X.
+        destruct X as [X|[X|[]]]; [apply F1, X | subst; rewrite Nat.eqb_refl in E; discriminate].
+      + intros w. unfold upd. destruct (Nat.eqb w (wof c (sid s))); [cbn; discriminate | apply F2].
+      + intros w. unfold upd. destruct (Nat.eqb w (wof c (sid s))); [cbn; discriminate | apply F3].
+      + intros k X. apply in_or_app. left. apply F4, X.
+    - (* ONext *) des S; inv_some S; apply (FInv_same st); auto; cbn; auto.
   Qed.
 
   Lemma FInv_init : FInv pinit.
